@@ -478,7 +478,12 @@ def _get(chk: Check, lt: ClassInfo) -> None:
                              attr_path(n.func) == (me, "_interval_events", "clear")) | \
         cfg.nodes_where(lambda n: isinstance(n, ast.Assign) and any(
             attr_path(t) == (me, "_interval_events") for t in n.targets)
-            and isinstance(n.value, ast.List) and not n.value.elts)
+            and isinstance(n.value, ast.List) and not n.value.elts) | \
+        cfg.nodes_where(lambda n: isinstance(n, ast.Assign) and len(n.targets) == 1
+                        and isinstance(n.targets[0], ast.Tuple) and isinstance(n.value, ast.Tuple)
+                        and len(n.targets[0].elts) == len(n.value.elts) and any(
+            attr_path(t) == (me, "_interval_events") and isinstance(v, ast.List) and not v.elts
+            for t, v in zip(n.targets[0].elts, n.value.elts)))
     wit = cfg.path_avoiding(cfg.entry, cfg.exit, clears)
     chk.ob("R12.4", "LazyIntervalTree.get:clears-queue", wit is None, f.loc(),
            "a path through get() leaves events queued: they would be applied a second time by the "
@@ -486,6 +491,40 @@ def _get(chk: Check, lt: ClassInfo) -> None:
     early = [c for c in clears if any(h in cfg.reachable(c) for h in replay_heads)]
     chk.ob("R12.4", "LazyIntervalTree.get:clears-after-replay", not early, f.loc(),
            "the queue is cleared before it is replayed", 2, undecided=aliased)
+    # ... and nothing that can fail runs after the queue was emptied: building a tree or applying an
+    # event runs the nodes' own code and the tree library's checks; were one to raise after the
+    # events are gone, the old tree would stay without them (decided whatever the aliasing: the
+    # emptying is an explicit clear() / rebind of the attribute)
+    def _fallible(a: Optional[ast.AST]) -> Optional[ast.Call]:
+        if a is None:
+            return None
+        # (a loop / branch head stands for its iterable / test only)
+        roots = [a.iter] if isinstance(a, ast.For) else [a.test] if isinstance(a, (ast.If, ast.While)) else [a]
+        for r_ in roots:
+            for x in ast.walk(r_):
+                if isinstance(x, (ast.FunctionDef, ast.Lambda)):
+                    continue
+                if isinstance(x, ast.Call):
+                    d_ = dotted(x.func) or attr_path(x.func) or ("",)
+                    if d_[-1] == "IntervalTree" or d_[-1] == "_make_interval" or (
+                            d_[-1] in ("add", "discard", "remove", "addi", "update") and "_interval_index" in d_):
+                        return x
+        return None
+    late = None
+    for c in sorted(clears):
+        for n in sorted(cfg.reachable(c)):
+            if n == c:
+                continue
+            hit = _fallible(cfg.info[n].ast) if n in cfg.info else None
+            if hit is not None:
+                late = hit
+                break
+        if late is not None:
+            break
+    chk.ob("R12.4", "LazyIntervalTree.get:queue-emptied-last", late is None, f.loc(late) if late is not None else f.loc(),
+           "get() empties the event queue and then still builds or updates the tree (%s): if that fails, "
+           "the events are gone and the tree that stays never sees them"
+           % (unparse(late)[:60] if late is not None else "-"), 3)
     # the rebuild enumerates the value collection through the builder, skipping None
     # (the nested generator function whose call is the argument the tree is built from)
     gen_names = {c.args[0].func.id for c in walk_no_nested(f.node)
